@@ -119,10 +119,13 @@ load_cpus(struct loom *loom, JSON_Object *meta)
 
 		/* If we reach this point, there shouldn't be a CPU with the
 		 * same index either, as otherwise the phyid should have matched
-		 * before. So it is an error. */
-		if (loom_get_cpu(loom, index) != NULL) {
-			err("cpu index %d redefined with another phyid", index);
-			return -1;
+		 * before. So it is an error. The array of CPUs by index is not
+		 * built until loom_init_end(), so search the hash table. */
+		for (struct cpu *c = loom->cpus; c; c = c->hh.next) {
+			if (c->index == index) {
+				err("cpu index %d redefined with another phyid", index);
+				return -1;
+			}
 		}
 
 		cpu = calloc(1, sizeof(struct cpu));
